@@ -96,7 +96,7 @@ def build_impl(n, ld):
     if op == 'parmap': return d.map(F.PyF(a[0]), num_workers=I(a[1]), buffer_size=I(a[2]), backend=a[3])
     if op == 'batchmap': return d.batch_map(F.PyF(a[0]))
     if op == 'filter': return d.filter(F.PyQ(a[0], a[2] if len(a) > 2 else 0), lazy=a[1])
-    if op == 'catch': return d.catch(E_to_py(a[0]))
+    if op == 'catch': return d.catch(E_to_py(a[0]), warn=zlib.crc32(n.key().encode()) % 5 == 0)
     if op == 'prefetch': return d.prefetch(I(a[0]), I(a[1]), backend=a[3], catch_filter_exception=E_to_py(a[2]))
     if op == 'get':
         s = a[0]
@@ -121,10 +121,16 @@ def build_impl(n, ld):
         r = d.shuffle(False, rng=rng)
         n.note['perm'] = rng.perms[-1]
         return r
-    if op == 'concat': return ld.concatenate(*K)
-    if op == 'intersperse': return ld.intersperse(*K)
-    if op == 'zip': return ld.zip(*K)
-    if op == 'keyzip': return ld.key_zip(*K)
+    if op in ('concat', 'intersperse', 'zip', 'keyzip'):
+        # the four spellings of a combining call: function / method, separate arguments / one list
+        name = {'concat': 'concatenate', 'intersperse': 'intersperse', 'zip': 'zip', 'keyzip': 'key_zip'}[op]
+        form = zlib.crc32((n.key() + 'form').encode()) % 4
+        if form == 0: return getattr(ld, name)(*K)
+        if form == 1: return getattr(ld, name)(list(K) if zlib.crc32(n.key().encode()) % 2 else tuple(K))
+        if form == 2: return getattr(K[0], name)(*K[1:])
+        if op in ('zip', 'keyzip'):
+            return getattr(K[0], name)(*K[1:])          # the zip methods take separate arguments only
+        return getattr(K[0], name)(list(K[1:])) if len(K) > 1 else getattr(K[0], name)()
     if op == 'items': return d.items()
     if op == 'batch': return d.batch(I(a[0]), drop_last=a[1])
     if op == 'unbatch': return d.unbatch()
